@@ -56,7 +56,26 @@ fn huf_err(e: &HuffmanTableError) -> String {
     match e {
         E::GetBitsError(_) => "GetBitsError".into(),
         E::FSEDecoderError(_) => "FSEDecoderError".into(),
-        E::FSETableError(_) => "FSETableError".into(),
+        E::FSETableError(t) => {
+            use ruzstd::decoding::errors::FSETableError as T;
+            let v = match t {
+                T::AccLogIsZero => "acclogzero".to_string(),
+                T::AccLogTooBig { got, max } => format!("acclogtoobig {} {}", got, max),
+                T::GetBitsError(g) => {
+                    let (name, nums) = crate::engines::bits::getbits_err_parts(&format!("{:?}", g));
+                    match (name.as_str(), nums.as_slice()) {
+                        ("TooManyBits", [q, _]) => format!("getbits toomany {}", q),
+                        ("NotEnoughRemainingBits", [q, m]) => format!("getbits notenough {} {}", q, m),
+                        _ => format!("getbits ?{}", name),
+                    }
+                }
+                T::ProbabilityCounterMismatch { got, expected_sum, .. } => format!("countermismatch {} {}", got, expected_sum),
+                T::TooManySymbols { got } => format!("toomanysymbols {}", got),
+                #[allow(unreachable_patterns)]
+                _ => "other".to_string(),
+            };
+            format!("FSETableError {}", v)
+        }
         E::SourceIsEmpty => "SourceIsEmpty".into(),
         E::NotEnoughBytesForWeights { got_bytes, expected_bytes } => format!("NotEnoughBytesForWeights {} {}", got_bytes, expected_bytes),
         E::ExtraPadding { skipped_bits } => format!("ExtraPadding {}", skipped_bits),
